@@ -43,6 +43,9 @@ def materialise(eng, st, v, M):
         return [RefV(Cell(K(b), "byte@%d" % (it.fields[0].v + i))) for i, b in enumerate(data[it.fields[0].v:])]
     if isinstance(it, AggV) and it.kind == M.LIST_ITER:
         return [RefV(c) for c in it.fields[1].cells[it.fields[0].v:]]
+    if isinstance(it, AggV) and it.kind == "array" and it.fields and all(isinstance(k_, int) for k_ in it.fields):
+        # an array where an IntoIterator is expected (`a.iter().zip([x, y, z])`): its elements by value
+        return [it.fields[i] for i in sorted(it.fields)]
     if isinstance(it, AggV) and it.kind == "array-into-iter" and isinstance(it.fields.get(0), K) and isinstance(it.fields.get(1), AggV):
         # `[a, b, c].into_iter()`: the elements by value, in order
         arr = it.fields[1]
